@@ -146,20 +146,40 @@ class Ctx:
         self.rd = chk.rd.path
         self.llgo = C.llgo_binary()
         self.xdriver = None
-        self.gocache = os.path.join(C.BUILD, "gocache-c13")
-        os.makedirs(self.gocache, exist_ok=True)
+        self.gocache_base = os.path.join(C.BUILD, "gocache-c13")
+        os.makedirs(self.gocache_base, exist_ok=True)
         self.lock = threading.Lock()
         self.builds = 0
         self.build_secs = 0.0
         self.reads = None
 
 
-def build_cmd(ctx, moddir, cache, tmp, out, val, driver):
+def acquire_gocache(ctx):
+    """go's own build cache is not under test, but llgo writes the objects of C side files next to the export files in
+    it under names that do not depend on the module's location: concurrent builds must not share one. Persistent
+    slots, one build at a time per slot (flock)."""
+    import fcntl
+    n = 0
+    while True:
+        d = os.path.join(ctx.gocache_base, "s%02d" % n)
+        os.makedirs(d, exist_ok=True)
+        f = open(os.path.join(d, ".lock"), "w")
+        try:
+            fcntl.flock(f, fcntl.LOCK_EX | fcntl.LOCK_NB)
+            return d, f
+        except OSError:
+            f.close()
+            n += 1
+            if n > 200:
+                raise C.Undecided("no free GOCACHE slot")
+
+
+def build_cmd(ctx, moddir, cache, tmp, out, val, driver, gocache):
     args = ["-O2" if val["opt"] % 2 else "-O0", "-o", out]
     if val["tags"] % 2:
         args += ["-tags", "vt"]
     args.append(".")
-    env = C.base_env({"XDG_CACHE_HOME": cache, "TMPDIR": tmp, "GOCACHE": ctx.gocache})
+    env = C.base_env({"XDG_CACHE_HOME": cache, "TMPDIR": tmp, "GOCACHE": gocache})
     for k in list(env):
         if k.startswith("LLGO_") and k not in ("LLGO_ROOT",):
             del env[k]
@@ -185,14 +205,18 @@ def build_cmd(ctx, moddir, cache, tmp, out, val, driver):
 
 def do_build(ctx, moddir, cache, tmp, out, val, driver, timeout=1800):
     os.makedirs(tmp, exist_ok=True)
-    cmd, env, shown = build_cmd(ctx, moddir, cache, tmp, out, val, driver)
-    if os.path.exists(out):
-        os.remove(out)
-    t0 = time.time()
+    gocache, lockf = acquire_gocache(ctx)
     try:
-        r = subprocess.run(cmd, cwd=moddir, env=env, capture_output=True, text=True, timeout=timeout)
-    except subprocess.TimeoutExpired:
-        raise C.Undecided("build timed out: %s" % shown["cmd"])
+        cmd, env, shown = build_cmd(ctx, moddir, cache, tmp, out, val, driver, gocache)
+        if os.path.exists(out):
+            os.remove(out)
+        t0 = time.time()
+        try:
+            r = subprocess.run(cmd, cwd=moddir, env=env, capture_output=True, text=True, timeout=timeout)
+        except subprocess.TimeoutExpired:
+            raise C.Undecided("build timed out: %s" % shown["cmd"])
+    finally:
+        lockf.close()
     dt = time.time() - t0
     with ctx.lock:
         ctx.builds += 1
